@@ -125,10 +125,11 @@ func ExpressionAssociativity(expr ExpressionNode) Associativity {
 
 // Write an expression in a position where the grammar expects
 // an expression without modifiers (initialisers, default values).
-// Modifier expressions like `a if b` have to be parenthesised there.
+// Modifier expressions like `a if b` have to be parenthesised there,
+// and so do labeled expressions since they extend over a following modifier.
 func writeExpressionWithoutModifier(buff *strings.Builder, expr ExpressionNode) {
 	switch expr.(type) {
-	case *ModifierNode, *ModifierIfElseNode, *ModifierForInNode:
+	case *ModifierNode, *ModifierIfElseNode, *ModifierForInNode, *LabeledExpressionNode:
 		buff.WriteRune('(')
 		buff.WriteString(expr.String())
 		buff.WriteRune(')')
